@@ -167,6 +167,30 @@ def boundary_programs(tier):
                'var t0; t0;' % (', '.join(names[:60]), uses))
 
 
+def label_programs():
+    """labels spelled like a variable / parameter / function of the same or
+    of an enclosing function (labels are a namespace of their own: they
+    neither bind nor capture a variable)"""
+    outers = [('var', 'function f(){ var L = 1, a = 2; %s return L + a; }'),
+              ('param', 'function f(L, a){ %s return L + a; }'),
+              ('fn', 'function f(){ function L(){} var a; %s L(); a; }'),
+              ('catch', 'function f(){ try{}catch(L){ var a; %s L; a; } }')]
+    bodies = [
+        'L: for(;;){ a = L; break L; }',
+        'L: while(a){ L; continue L; }',
+        'function g(){ L: for(;;){ a = L; break L; } }',
+        'function g(p){ L: for(var i in p){ a[i] = L[i]; continue L; } }',
+        'z = function(){ a: for(;;){ L = a; break a; } };',
+        'function g(){ var q; L: do { q = L + a; break L; } while(q) }',
+        'function g(){ function h(){ L: { a = L; break L; } } }',
+        'L: a: for(;;){ break a; continue L; }',
+    ]
+    for name in ('x', 'data'):
+        for _, outer in outers:
+            for body in bodies:
+                yield (outer % body).replace('L', name)
+
+
 def make_printers(conf):
     """(plain printer, obfuscating printer) for a configuration"""
     from calmjs.parse.unparsers.es5 import Unparser, minify_printer
@@ -354,6 +378,9 @@ def run(tier, rep):
         items = [(t, flag4 + others) for t in texts]
     bnd = list(boundary_programs(tier))
     items += [(t, flag4 + others) for t in bnd]
+    lab = list(label_programs())
+    items += [(t, flag4 + others) for t in lab]
+    rep.space('labels-spelled-like-variables', programs=len(lab))
     s2 = [G.render(l) for l in (
         G.programs(2) if tier != 'quick' else
         G.programs(1) + G.chain_programs(2, G.CORE_FORMS))]
